@@ -49,20 +49,15 @@ fn url_checks(u: &DIDUrl, input: Option<&str>) -> Option<String> {
 }
 fn put_opt(obs: &mut Vec<i64>, o: Option<String>) { match o { Some(s) => { obs.push(1); put_bytes(obs, s.as_bytes()); } None => obs.extend([0, 0]) } }
 
-/// '%' (37) anywhere among the case integers (over-approximates "input contains '%'")
-/// K_pct: the text handed over ENDS in a percent triple (the one shape the third-party parser still decides: CoreDID::parse refuses it outright)
-pub fn classify(case: &[i64]) -> Option<&'static str> { if case.len() >= 4 && case[case.len() - 3] == 37 { Some("K_pct") } else { None } }
+/// no known-finding class is a predicate on the case integers any more (K_pct: repaired, see KNOWN_FINDINGS.txt)
+pub fn classify(_case: &[i64]) -> Option<&'static str> { None }
 
 fn reparse(s: &str) -> Result<Result<DIDUrl, ()>, ()> {
   let s2 = s.to_string();
   std::panic::catch_unwind(move || DIDUrl::parse(&s2).map_err(|_| ())).map_err(|_| ())
 }
 
-fn classes(bytes: &[u8], o: Outcome) -> Outcome {
-  // known-finding classes are predicates on the input
-  if bytes.len() >= 3 && bytes[bytes.len() - 3] == b'%' { return o.known("K_pct"); }
-  o
-}
+fn classes(_bytes: &[u8], o: Outcome) -> Outcome { o }
 fn colon_tail(s: &str) -> bool {
   // method-specific id ends with ':' (before any / ? #)
   let end = s.find(|c| c == '/' || c == '?' || c == '#').unwrap_or(s.len());
@@ -196,14 +191,16 @@ pub fn exec(case: &[i64]) -> Outcome {
       // each route under its own catch_unwind: Err(()) = that route panicked
       fn g<T>(f: impl FnOnce() -> Option<T> + std::panic::UnwindSafe) -> Result<Option<T>, ()> { std::panic::catch_unwind(f).map_err(|_| ()) }
       let (s1, s2, s3, s4, s5, s6, s7) = (s.clone(), s.clone(), s.clone(), s.clone(), s.clone(), s.clone(), s.clone());
+      // route 4 hands the text to the third-party parser ITSELF before identity_did sees anything: a panic in there is the caller's, not the library's
+      let mut third_party_panic = false;
       let dids: Vec<Result<Option<CoreDID>, ()>> = vec![g(move || CoreDID::parse(&s1).ok()), g(move || CoreDID::from_str(&s2).ok()), g(move || CoreDID::try_from(s3.as_str()).ok()), g(move || CoreDID::try_from(s4).ok()),
-        g(move || identity_did::BaseDIDUrl::parse(&s5).ok().and_then(|b| CoreDID::try_from(b).ok())), g(move || serde_json::from_value::<CoreDID>(serde_json::Value::String(s6)).ok()),
+        match std::panic::catch_unwind(move || identity_did::BaseDIDUrl::parse(&s5).ok()) { Ok(b) => g(move || b.and_then(|b| CoreDID::try_from(b).ok())), Err(_) => { third_party_panic = true; Err(()) } }, g(move || serde_json::from_value::<CoreDID>(serde_json::Value::String(s6)).ok()),
         g(move || DIDUrl::parse(&s7).ok().map(|u| u.did().clone()))];
       let (t1, t2, t3, t4, t5, t6) = (s.clone(), s.clone(), s.clone(), s.clone(), s.clone(), s.clone());
       let urls: Vec<Result<Option<DIDUrl>, ()>> = vec![g(move || DIDUrl::parse(&t1).ok()), g(move || DIDUrl::from_str(&t2).ok()), g(move || DIDUrl::try_from(t3).ok()), g(move || serde_json::from_value::<DIDUrl>(serde_json::Value::String(t4)).ok()),
         g(move || CoreDID::parse(&t5).ok().map(|d| d.to_url())), g(move || CoreDID::parse(&t6).ok().map(|d| d.into_url()))];
       let mut obs = vec![]; let mut why: Option<String> = None;
-      for (k, d) in dids.iter().enumerate() { match d { Err(()) => { obs.push(-777); why.get_or_insert(format!("DID route {k} panics")); } Ok(None) => obs.push(0), Ok(Some(d)) => { obs.push(1); put_bytes(&mut obs, d.as_str().as_bytes());
+      for (k, d) in dids.iter().enumerate() { match d { Err(()) => { obs.push(-777); if !(k == 4 && third_party_panic) { why.get_or_insert(format!("DID route {k} panics")); } } Ok(None) => obs.push(0), Ok(Some(d)) => { obs.push(1); put_bytes(&mut obs, d.as_str().as_bytes());
         let d2 = d.clone(); let sc = s.clone();
         let w = std::panic::catch_unwind(move || { let d = &d2; let s = &sc;
           if format!("did:{}:{}", d.method(), d.method_id()) != d.as_str() { return Some("components do not re-concatenate to the string form".to_string()); }
@@ -283,10 +280,10 @@ pub fn gen(rng: &mut Rng, thorough: bool, sink: &mut Sink) {
     }
     if rng.chance(1, 10) { let k = rng.range(1, 5) as usize; s = format!("{}{}", " ".repeat(k), s); }
     sink.case(bcase(1, s.as_bytes()), "random"); sink.case(bcase(2, s.as_bytes()), "random"); if rng.chance(1, 4) { sink.case(bcase(7, s.as_bytes()), "random-routes"); }
-    if valid_pool.len() < 40 && !s.contains('%') && DIDUrl::parse(&s).is_ok() { valid_pool.push(s); }
+    if valid_pool.len() < 40 && DIDUrl::parse(&s).is_ok() { valid_pool.push(s); }
   }
   // (c) setters and join over a pool of values x a pool of segments
-  let starts = ["did:a:b", "did:a:b/p", "did:a:b?q", "did:a:b#f", "did:example:123/p/q?x=1&y=2#frag", "did:a:b:c/p?q?#f?"];
+  let starts = ["did:a:b", "did:a:b/p", "did:a:b?q", "did:a:b#f", "did:example:123/p/q?x=1&y=2#frag", "did:a:b:c/p?q?#f?", "did:a:%41", "did:a:b%41/p%41", "did:a:%41%42?q=%41#f%41", "did:a:b/p%41?%41", "did:a:x%41y/%41/q"];
   let segs = ["", "/", "/p", "p", "/p q", "?", "?q", "q", "??", "?q?r", "#", "#f", "f", "##", "a#b", "key 2", "/%41", "/%4", "%41", "?%41", "#%zz", "/é", "/a/../b", "/./x", "/a/./b/..", "/..", "/.", "/../..", "/a/b/../../c", "//a//b", "/a/.", "/a/..", "/.a", "/..a", "/a./b", "/a/...", "/../a?q", "/./?q#f", "/a/../?", "/%2e%2e/x", "/a/b/c/../../../../d", "?a=b&c=d", "#f?g/h", "/p?q#f", "?q#f", "/p#f", "noleading", "/{x}", "/~!$&'()*+,;=@:"];
   for st in starts.iter().map(|s| s.to_string()).chain(valid_pool.iter().cloned().take(if thorough { 40 } else { 10 })) {
     for sg in segs { for op in 0..3 { for flag in [1i64, 0] {
@@ -295,7 +292,7 @@ pub fn gen(rng: &mut Rng, thorough: bool, sink: &mut Sink) {
       let mut c = vec![5]; put_bytes(&mut c, st.as_bytes()); put_bytes(&mut c, sg.as_bytes()); sink.case(c, "join");
     }
   }
-  for st in ["did:a:b", "did:example:123", "did:a:b:c"] { for val in ["", "x", "example", "Ex", "a:b", "a:", ":", "a b", "%41", "%4", "%41x", "%+1", "a/b", "a#b", "é", "0", "a.b-c_d"] { for op in 0..2 {
+  for st in ["did:a:b", "did:example:123", "did:a:b:c", "did:a:%41", "did:a:b%41"] { for val in ["", "x", "example", "Ex", "a:b", "a:", ":", "a b", "%41", "%4", "%41x", "x%41", "%41%42", "%41%4", "%+1", "a/b", "a#b", "é", "0", "a.b-c_d"] { for op in 0..2 {
     let mut c = vec![4]; put_bytes(&mut c, st.as_bytes()); c.push(op); put_bytes(&mut c, val.as_bytes()); sink.case(c, "did-setter");
   } } }
   // (d) Eq / Ord / Hash over pairs
